@@ -8,7 +8,7 @@ import json, os, re, shutil, subprocess, sys, tempfile, time, hashlib
 VERIF = os.path.dirname(os.path.dirname(os.path.abspath(__file__)))
 REPO = os.environ.get("XOBJECTS_REPO", "/repo")
 SPEC = os.path.join(VERIF, "spec")
-OUT = os.path.join(VERIF, "out")
+OUT = os.environ.get("VERIF_OUT_DIR") or os.path.join(VERIF, "out")
 EVID = os.environ.get("VERIF_EVIDENCE_DIR") or os.path.join(VERIF, "evidence")
 NCPU = os.cpu_count() or 4
 TLA_CP = "/opt/veriftools/tla/tla2tools.jar:/opt/veriftools/tla/CommunityModules-deps.jar"
@@ -108,10 +108,24 @@ def tlc_tuples(out, tag):
 
 
 def load_known():
+    res = []
     path = os.path.join(VERIF, "known_findings.json")
-    if not os.path.exists(path):
-        return []
-    return json.load(open(path)).get("findings", [])
+    if os.path.exists(path):
+        res += json.load(open(path)).get("findings", [])
+    d = os.path.join(VERIF, "known_findings.d")       # per-engine files (same format), merged
+    if os.path.isdir(d):
+        for f in sorted(os.listdir(d)):
+            if f.endswith(".json"):
+                res += json.load(open(os.path.join(d, f))).get("findings", [])
+    return res
+
+
+def child_env():
+    """environment for python subprocesses that must import xobjects from REPO"""
+    e = dict(os.environ)
+    e["PYTHONPATH"] = REPO + os.pathsep + VERIF + (os.pathsep + e["PYTHONPATH"] if e.get("PYTHONPATH") else "")
+    e.setdefault("PYTHONHASHSEED", "0")
+    return e
 
 
 class Run:
